@@ -14,6 +14,7 @@ of ints and binary32 values widened to binary64 (checked per case by the `stream
 Property theorems only; helper lemmas live in `Lemmas/ConvRefine.lean`.
 -/
 import OpfVerif.Lemmas.ConvRefine
+import OpfVerif.Gen.LoaderKw
 namespace Opf.ConvRefine
 open Opf Opf.Gen
 
@@ -55,9 +56,9 @@ theorem c18_gen_negative_count (n c d : UInt32) (rest : List UInt8) (hn : toInt3
 
 /-- writers and loaders agree on delimiters, `ndmin` keeps one-row files 2-D, and on the JSON keys. -/
 theorem c18_gen_delims :
-    ConvImp.opf2txt_delim = ConvImp.load_txt_delim ∧ ConvImp.opf2csv_delim = ConvImp.load_csv_delim ∧
+    ConvImp.opf2txt_delim = LoaderKw.load_txt_delim ∧ ConvImp.opf2csv_delim = LoaderKw.load_csv_delim ∧
     ConvImp.opf2txt_delim = " " ∧ ConvImp.opf2csv_delim = "," ∧
-    ConvImp.load_txt_ndmin = 2 ∧ ConvImp.load_csv_ndmin = 2 ∧
+    LoaderKw.load_txt_ndmin = 2 ∧ LoaderKw.load_csv_ndmin = 2 ∧
     ConvImp.opf2json_top_key = ConvImp.load_json_top_key := by
   refine ⟨?_, ?_, ?_, ?_, ?_, ?_, ?_⟩ <;> decide +kernel
 
